@@ -21,13 +21,16 @@ pub enum COp { Poll { fresh: bool }, Set(u64), Get, Drop, Up,
                /// `next_ref()` awaited again and again until the value `until` has been seen / `set(1..=n)` in order
                NextRefs { until: u64 }, SetSeq(u64),
                /// hold the write guard for a moment without writing / `subscribe()` and poll the new subscriber once
-               HoldWrite, SubPoll }
+               HoldWrite, SubPoll,
+               /// `n` rounds of `update(|v| v + 1)` followed by a poll of the thread's own subscriber / `n` rounds of clone, downgrade, upgrade, drop
+               UpdPoll(u64), Churn(u64) }
 impl COp {
     fn text(&self) -> String {
         match self { COp::Poll { fresh: false } => "poll".into(), COp::Poll { fresh: true } => "pollf".into(), COp::Set(v) => format!("set:{v}"),
             COp::Get => "get".into(), COp::Drop => "drop".into(), COp::Up => "up".into(), COp::NextNow => "nextnow".into(), COp::Sne(v) => format!("sne:{v}"), COp::Shne(v) => format!("shne:{v}"),
             COp::NextRefs { until } => format!("nextrefs:{until}"), COp::SetSeq(n) => format!("setseq:{n}"),
-            COp::HoldWrite => "holdwrite".into(), COp::SubPoll => "subpoll".into() }
+            COp::HoldWrite => "holdwrite".into(), COp::SubPoll => "subpoll".into(),
+            COp::UpdPoll(n) => format!("updpoll:{n}"), COp::Churn(n) => format!("churn:{n}") }
     }
 }
 
@@ -94,7 +97,9 @@ fn hook(p: PausePoint) {
     wait_token(&sh, t);
 }
 
-enum Handle { Sub(Subscriber<u64>, Arc<Flag>, Waker), Clone(SharedObservable<u64>), Weak(WeakObservable<u64>), None }
+enum Handle { Sub(Subscriber<u64>, Arc<Flag>, Waker), Clone(SharedObservable<u64>), Weak(WeakObservable<u64>), None,
+              /// an owner together with a subscriber of its own
+              Both(SharedObservable<u64>, Subscriber<u64>, Waker) }
 
 fn poll_once(s: &mut Subscriber<u64>, w: &Waker) -> String {
     let mut cx = Context::from_waker(w);
@@ -119,6 +124,21 @@ fn worker(sh: Arc<Shared>, t: usize, op: COp, mut h: Handle, forced: bool, round
             (COp::Sne(v), Handle::Clone(o)) => fmt_opt(o.set_if_not_eq(*v)),
             (COp::Shne(v), Handle::Clone(o)) => fmt_opt(o.set_if_hash_not_eq(*v)),
             (COp::SetSeq(n), Handle::Clone(o)) => { for i in 1..=*n { o.set(i); } "-".into() }
+            (COp::UpdPoll(n), Handle::Both(o, s, w)) => {
+                // every update of this thread is seen by this thread's subscriber on its next poll
+                let mut missed = 0u64;
+                let mut first = String::new();
+                for k in 0..*n {
+                    o.update(|v| *v += 1);
+                    let r = poll_once(s, w);
+                    if r == "Pending" { missed += 1; if first.is_empty() { first = format!("round {k}: value {}", o.get()); } }
+                }
+                format!("{missed};{first}")
+            }
+            (COp::Churn(n), Handle::Clone(o)) => {
+                for _ in 0..*n { let c = o.clone(); let wk = c.downgrade(); let u = wk.upgrade(); drop(c); drop(u); drop(wk); }
+                "-".into()
+            }
             (COp::HoldWrite, Handle::Clone(o)) => {
                 { let g = o.write(); for _ in 0..2000 { std::hint::spin_loop(); } drop(g); }
                 o.update_if(|_| { for _ in 0..2000 { std::hint::spin_loop(); } false });
@@ -178,7 +198,8 @@ fn setup(p: &Program) -> Setup {
         handles.push(match op {
             COp::Poll { fresh } => { let (f, w) = flag_waker(); n_subs += 1; Handle::Sub(if *fresh { root.subscribe_reset() } else { root.subscribe() }, f, w) }
             COp::NextNow | COp::NextRefs { .. } => { let (f, w) = flag_waker(); n_subs += 1; Handle::Sub(root.subscribe(), f, w) }
-            COp::Set(_) | COp::Get | COp::Drop | COp::Sne(_) | COp::Shne(_) | COp::SetSeq(_) | COp::HoldWrite | COp::SubPoll => { n_clones += 1; Handle::Clone(root.clone()) }
+            COp::UpdPoll(_) => { let (_f, w) = flag_waker(); n_subs += 1; n_clones += 1; Handle::Both(root.clone(), root.subscribe(), w) }
+            COp::Set(_) | COp::Get | COp::Drop | COp::Sne(_) | COp::Shne(_) | COp::SetSeq(_) | COp::HoldWrite | COp::SubPoll | COp::Churn(_) => { n_clones += 1; Handle::Clone(root.clone()) }
             COp::Up => Handle::Weak(root.downgrade()),
         });
     }
@@ -261,7 +282,7 @@ fn finish(sink: &mut Sink, p: &Program, joined: Vec<(Handle, Vec<String>, Option
                     let again = poll_once(&mut s, &w);
                     if again != "Pending" {
                         // not being told about the END of the stream is a failure of C03 as well
-                        sink.oracle_fail(if again == "End" { "C02,C03" } else { "C02" }, &format!("thread {t}: its last poll answered Pending, its waker was never woken, yet a further poll answers {again} (lost wakeup)"));
+                        sink.oracle_fail(if again == "End" { "C02,C03" } else { "C02,C04" }, &format!("thread {t}: its last poll answered Pending, its waker was never woken, yet a further poll answers {again} (lost wakeup)"));
                     }
                 }
                 // C04: a value is handed out together with the version it belongs to: when every written value is different,
@@ -286,7 +307,7 @@ fn finish(sink: &mut Sink, p: &Program, joined: Vec<(Handle, Vec<String>, Option
                 let seen: u64 = results.first().and_then(|r| r.parse().ok()).unwrap_or(u64::MAX);
                 let again = poll_once(&mut s, &w);
                 if again == "Pending" && seen != value {
-                    sink.oracle_fail("C04", &format!("thread {t}: next_now returned {seen}, the final value is {value}, and the subscriber's next poll is Pending: the update was marked observed without being seen"));
+                    sink.oracle_fail("C04,C01", &format!("thread {t}: next_now returned {seen}, the final value is {value}, and the subscriber's next poll is Pending: the update was marked observed without being seen"));
                 }
                 if again.starts_with("Ready") && again != format!("Ready({value})") {
                     sink.oracle_fail("C04", &format!("thread {t}: after next_now the poll answers {again}, the final value is {value}"));
@@ -302,6 +323,12 @@ fn finish(sink: &mut Sink, p: &Program, joined: Vec<(Handle, Vec<String>, Option
             }
             (COp::SetSeq(_), Handle::Clone(_)) => { owners += 1; }
             (COp::HoldWrite, Handle::Clone(_)) => { owners += 1; }
+            (COp::Churn(_), Handle::Clone(_)) => { owners += 1; }
+            (COp::UpdPoll(_), Handle::Both(..)) => {
+                owners += 1;
+                if let Some(r) = results.first() { let mut it = r.splitn(2, ';'); let missed: u64 = it.next().and_then(|x| x.parse().ok()).unwrap_or(0);
+                    if missed > 0 { sink.oracle_fail("C04,C01", &format!("thread {t}: {missed} of its own updates were not announced to its own subscriber (next poll Pending while other threads only cloned and dropped handles; first: {})", it.next().unwrap_or(""))); } }
+            }
             (COp::SubPoll, Handle::Clone(_)) => {
                 owners += 1;
                 // C04 / C01: nothing is written in this program: a subscriber created by subscribe() has nothing to receive
@@ -455,6 +482,7 @@ pub fn programs() -> Vec<(&'static str, Program, usize)> {
         ("up|drop|drop", Program { init: 1, ops: vec![COp::Up, COp::Drop, COp::Drop], extra_clones: 0 }, 0),
         ("set|set|get", Program { init: 1, ops: vec![COp::Set(5), COp::Set(6), COp::Get], extra_clones: 0 }, 0),
         ("poll|poll|set", Program { init: 1, ops: vec![pl(false), pl(false), COp::Set(5)], extra_clones: 0 }, 0),
+        ("poll|pollf|set", Program { init: 1, ops: vec![pl(false), pl(true), COp::Set(5)], extra_clones: 0 }, 0),
         ("poll|set|set", Program { init: 1, ops: vec![pl(false), COp::Set(5), COp::Set(6)], extra_clones: 0 }, 0),
         ("poll|drop|drop", Program { init: 1, ops: vec![pl(false), COp::Drop, COp::Drop], extra_clones: 0 }, 0),
         ("pollf|get|set", Program { init: 1, ops: vec![pl(true), COp::Get, COp::Set(7)], extra_clones: 1 }, 0),
@@ -477,6 +505,7 @@ pub fn free_programs() -> Vec<(&'static str, Program)> {
         ("pollf|set|set.free", Program { init: 1, ops: vec![pl(true), COp::Set(5), COp::Set(6)], extra_clones: 0 }),
         ("holdwrite|subpoll", Program { init: 1, ops: vec![COp::HoldWrite, COp::SubPoll], extra_clones: 0 }),
         ("holdwrite|subpoll|subpoll", Program { init: 1, ops: vec![COp::HoldWrite, COp::SubPoll, COp::SubPoll], extra_clones: 0 }),
+        ("updpoll|churn|churn|churn", Program { init: 0, ops: vec![COp::UpdPoll(1500), COp::Churn(1500), COp::Churn(1500), COp::Churn(1500)], extra_clones: 0 }),
         ("shne|shne", Program { init: 1, ops: vec![COp::Shne(7), COp::Shne(7)], extra_clones: 0 }),
         ("shne|shne|sne", Program { init: 1, ops: vec![COp::Shne(7), COp::Shne(7), COp::Sne(7)], extra_clones: 0 }),
         ("nextrefs|setseq", Program { init: 0, ops: vec![COp::NextRefs { until: 300 }, COp::SetSeq(300)], extra_clones: 0 }),
